@@ -32,20 +32,20 @@ var (
 )
 
 type cfg struct {
-	Issuer     string
-	ClientID   string
-	Offset     time.Duration
-	OffsetOpt  bool // false: no WithIssuedAtOffset option is passed and the constructor default (1 s) applies
-	MaxAgeIAT  time.Duration
-	MaxAge     time.Duration
-	NonceFn    bool   // false: WithNonce(nil) - no nonce requirement configured
-	NonceOpt   bool   // false (with NonceFn): the constructor default (function returning "") is used
-	NonceVal   string // what the configured function returns
-	ACR        []string
-	ACRCustom  bool     // the allow-list is enforced by a harness-written ACRVerifier instead of oidc.DefaultACRVerifier
-	Algs       []string // nil: no WithSupportedSigningAlgorithms option
-	AlgsKind   string
-	CtxNonce   bool // the nonce function reads its value from the context handed to the verifier
+	Issuer    string
+	ClientID  string
+	Offset    time.Duration
+	OffsetOpt bool // false: no WithIssuedAtOffset option is passed and the constructor default (1 s) applies
+	MaxAgeIAT time.Duration
+	MaxAge    time.Duration
+	NonceFn   bool   // false: WithNonce(nil) - no nonce requirement configured
+	NonceOpt  bool   // false (with NonceFn): the constructor default (function returning "") is used
+	NonceVal  string // what the configured function returns
+	ACR       []string
+	ACRCustom bool     // the allow-list is enforced by a harness-written ACRVerifier instead of oidc.DefaultACRVerifier
+	Algs      []string // nil: no WithSupportedSigningAlgorithms option
+	AlgsKind  string
+	CtxNonce  bool // the nonce function reads its value from the context handed to the verifier
 }
 
 func (c *cfg) describe() map[string]any {
